@@ -57,7 +57,8 @@ impl From<std::time::Duration> for Duration {
 }
 
 impl From<Duration> for std::time::Duration {
-    #[cfg_attr(kani, kani::ensures(|r: &Self| r.subsec_nanos() < 1_000_000_000 && r.as_secs() <= u64::MAX / 1_000_000_000 && r.as_secs() * 1_000_000_000 + r.subsec_nanos() as u64 == duration.nanos))]
+    #[cfg_attr(kani, kani::ensures(|r: &Self| r.as_secs() == duration.nanos / 1_000_000_000))]
+    #[cfg_attr(kani, kani::ensures(|r: &Self| r.subsec_nanos() as u64 == duration.nanos % 1_000_000_000))]
     fn from(duration: Duration) -> Self {
         std::time::Duration::from_nanos(duration.nanos)
     }
